@@ -202,7 +202,9 @@ protected:
       }
     }
 
+    // The terminator is replaced by '\0' and it is not part of the string
     strCurr[lenCurr - 1] = 0;
+    lenCurr--;
   }
 };
 
